@@ -12,6 +12,7 @@ mod lexer;
 mod nodes;
 mod decode;
 mod values;
+mod loc;
 mod channels;
 mod term;
 mod dump;
@@ -36,6 +37,7 @@ fn main() {
         Some("ops-scalar-op") => ops::scalar_op(&v),
         Some("ops-search") => ops::search(&v),
         Some("symm-search") => symm::search(&v),
+        Some("loc-search") => loc::search(&v),
         Some("channels-search") => channels::search(&v),
         Some("term-search") => term::search(&v),
         Some("dump-search") => dump::search(&v),
